@@ -12,6 +12,8 @@ _TRANSPARENT_LAST = {
     "unchecked": 0, "u128": 0, "new": 0, "unwrap": 0, "expect": 0, "must_use": 0, "into_iter": 0,
     "iter": 0, "iter_mut": 0, "as_mut": 0, "cloned": 0, "copied": 0, "into_boxed_slice": 0, "into_vec": 0,
     "as_mut_slice": 0, "map_err": 0, "ok_or": 0, "ok_or_else": 0,
+    # Response builder steps that add no message: the response (and its message list) flows through
+    "add_attribute": 0, "add_attributes": 0, "add_event": 0, "add_events": 0, "set_data": 0,
 }
 # `new` is transparent only for these single-field wrappers
 _NEW_OK = re.compile(r"(cosmwasm_std::\S*Uint128|cosmwasm_std::\S*Addr|alloc::boxed::Box|std::boxed::Box)")
@@ -59,6 +61,8 @@ def transparent_arg(callee):
         return 0 if "Addr" in g else None
     if name == "u128":
         return 0 if "Uint128" in g else None
+    if name in ("add_attribute", "add_attributes", "add_event", "add_events", "set_data"):
+        return 0 if re.search(r"cosmwasm_std::\S*Response", g) else None
     return _TRANSPARENT_LAST[name]
 
 
@@ -152,10 +156,21 @@ class Roots:
         """Private, effect-free, loop-free workspace helper: its (non-error) return value with parameters substituted."""
         return inline_call(self.P, v)
 
+    def with_params(self, fn_path, args):
+        """A Roots view in which the parameters of `fn_path` are the given argument values of one call site (a helper
+        analysed in its caller's context)."""
+        r = Roots(self.P)
+        r.capture_override = dict(getattr(self, "capture_override", {}))
+        r.param_override = dict(getattr(self, "param_override", {}))
+        for i, a in enumerate(args):
+            r.param_override[(fn_path, i)] = (self, a)
+        return r
+
     def with_captures(self, cv):
         """A Roots view in which the upvars of closure value `cv` are its own (possibly substituted) capture operands."""
         r = Roots(self.P)
         r.capture_override = dict(getattr(self, "capture_override", {}))
+        r.param_override = dict(getattr(self, "param_override", {}))
         r.capture_override[cv[2]] = {i: x for i, x in cv[3]}
         return r
 
@@ -182,6 +197,10 @@ class Roots:
         if k == "proj":
             return self.roots(v[1], (v[2],) + path)
         if k == "param":
+            po = getattr(self, "param_override", None)
+            if po and (v[1], v[2]) in po:
+                outer, av = po[(v[1], v[2])]
+                return outer.roots(av, path)
             fn = self.P.fn(v[1])
             path = _strip_wrapper(path)
             if fn is not None and fn.kind == "closure" and v[2] == 0 and path and path[0][0] == "f" and isinstance(path[0][1], int):
@@ -287,6 +306,8 @@ class Roots:
             if cs.endswith("option::Option::unwrap_or") and len(v[4]) == 2:
                 return {"or(%s;%s)%s" % ("|".join(sorted(self.roots(v[4][0], (("v", "Some"), ("f", 0))))),
                                           "|".join(sorted(self.roots(v[4][1]))), path_str(path))}
+            if cs.endswith("option::Option::unwrap_or_default") and len(v[4]) == 1:
+                return {"or(%s;K:default)%s" % ("|".join(sorted(self.roots(v[4][0], (("v", "Some"), ("f", 0))))), path_str(path))}
             if cs.endswith("option::Option::unwrap_or_else") and len(v[4]) == 2:
                 alt = self.closure_return_roots(v[4][1])
                 if alt is None and v[4][1][0] == "const" and v[4][1][1] == "fn":
@@ -554,6 +575,8 @@ def check_helper(P, g):
     allg = bool_guards(P, g, helpers=False)
     flags = {x.b for x in allg if drop_flag(x)}
     gs = [x for x in allg if not drop_flag(x)]
+    if 2 <= len(gs) <= 4:
+        _CHECK_MULTI[key] = _check_helper_multi(P, g, gs, flags)
     if len(gs) != 1:
         return None
     # no other branching (besides the one guard)
@@ -578,6 +601,43 @@ def check_helper(P, g):
     return res
 
 
+_CHECK_MULTI = {}
+
+
+def _check_helper_multi(P, g, gs, flags):
+    """Several early-return guards in sequence (`if a { return Err } if b { return Err } Ok(())`): every guard has one edge
+    that only errs, and every success exit lies behind the passing edge of every guard.  [(cond, errs_when_true)] or None."""
+    for b, blk in enumerate(g.body.blocks):
+        if not blk["cleanup"] and blk["term"]["k"] == "switch" and b not in flags and b not in {x.b for x in gs}:
+            return None
+    exits = exit_sites(P, g)
+    oks = [b for (b, i, cls, v) in exits if cls == "ok"]
+    if not oks or any(cls not in ("ok", "err") for (b, i, cls, v) in exits):
+        return None
+    res = []
+    for gd in gs:
+        if gd.cond[0] != "cmp":
+            return None
+        hit = None
+        for truth in (True, False):
+            reach_f = g.body.reachable_from(gd.edge(truth)[1])
+            f_cls = {cls for (b, i, cls, v) in exits if b in reach_f}
+            if f_cls == {"err"} and all(g.body.edge_dominates(gd.edge(not truth), ob) for ob in oks):
+                hit = (gd.cond, truth)
+        if hit is None:
+            return None
+        res.append(hit)
+    return res
+
+
+def check_helper_multi(P, g):
+    """[(cond, errs_when_true)] for a check helper with one or several sequential conditions, else None."""
+    one = check_helper(P, g)
+    if one is not None:
+        return [one]
+    return _CHECK_MULTI.get((id(P), g.path))
+
+
 def rejects_via_check_helper(P, v):
     """v (an error exit value) is the error propagated out of a one-condition check helper (`ensure(cond, err)?`)."""
     for x in walk(v):
@@ -598,15 +658,25 @@ def helper_guards(P, fn):
         g = P.fn(p) or P.fn(generic_path(p))
         if g is None or g.path == fn.path or not g.path.startswith(("halo_pair::", "halo_factory::", "halo_router::", "haloswap::")):
             continue
-        ch = check_helper(P, g)
-        if ch is None:
+        chs = check_helper_multi(P, g)
+        if chs is None:
             continue
         pg = propagated(P, fn, b)
         if pg is None:
             continue
         s_, cont, brk = pg
-        cond, errs_when_true = ch
         cv = P.val_call(fn, fn.body, b)
+        if len(chs) > 1:
+            # several conditions behind one `?`: Continue needs every one of them to pass, each one alone rejects
+            mapping = {("param", g.path, i): a for i, a in enumerate(cv[4])}
+            for cond, errs_when_true in chs:
+                tt, ft = (brk[1], cont[1]) if errs_when_true else (cont[1], brk[1])
+                cond2 = ("cmp", cond[1], tuple(subst_params(a, mapping) for a in cond[2]), False, b, cond[5] if len(cond) > 5 else None)
+                g_ = Guard(fn, s_, cond2, tt, ft)
+                g_.multi = len(chs)
+                out.append(g_)
+            continue
+        cond, errs_when_true = chs[0]
         mapping = {("param", g.path, i): a for i, a in enumerate(cv[4])}
         tt, ft = (brk[1], cont[1]) if errs_when_true else (cont[1], brk[1])
         if cond[0] == "cmp":
@@ -699,6 +769,37 @@ def adt_short(path):
     return path.rsplit("::", 1)[-1]
 
 
+def _modelled_sites(P, fn):
+    """Message aggregates that exist only as models of cosmwasm-std constructor calls (mir.model_std_ctor):
+    [(bb, adt, variant, value, span)], outermost first."""
+    out = []
+    for b, p, fr, t in P.calls(fn):
+        if not p:
+            continue
+        v = P.val_call(fn, fn.body, b)
+        if v[0] != "agg" or v[1] != "adt":
+            continue
+        todo = [v]
+        while todo:
+            x = todo.pop(0)
+            nm = str(x[2])
+            if nm.endswith("Result::Ok") and len(x[3]) == 1:
+                todo.append(x[3][0][1])
+                continue
+            if MSG_ADT.match(nm) or MSG_ADT.match(nm.rsplit("::", 1)[0]):
+                if MSG_ADT.match(nm):
+                    adt, var = nm, nm.rsplit("::", 1)[-1]          # a struct (SubMsg)
+                else:
+                    adt, var = nm.rsplit("::", 1)
+                out.append((b, adt, var, x, t["span"]))
+                # the wrapper built around a literal argument (`reply_on_success(WasmMsg::Instantiate{..})` -> CosmosMsg::Wasm) is
+                # part of the model; the literal itself is a real aggregate statement and is reported by the statement scan
+                for _, child in x[3]:
+                    if child[0] == "agg" and child[1] == "adt" and str(child[2]).startswith("cosmwasm_std::CosmosMsg::"):
+                        out.append((b, "cosmwasm_std::CosmosMsg", str(child[2]).rsplit("::", 1)[-1], child, t["span"]))
+    return out
+
+
 def message_sites(P):
     """[(fn, bb, idx, adt, variant, value, span)] for every message aggregate in production code.  A message built inside a
     straight-line private constructor helper (ctor_helper) is reported once per production call site of the helper, in the
@@ -706,6 +807,17 @@ def message_sites(P):
     out = []
 
     def emit(fn, b, i, adt, var, v, span, depth):
+        if depth < 3 and fn.kind == "closure" and local_closure_helper(P, fn):
+            # a local closure called like a function (`let mint = |to, amount| -> StdResult<CosmosMsg> {..}; mint(a, b)?`):
+            # the message is reported at each direct call, with the closure's parameters replaced by the arguments
+            cs = [(c, cb) for c, cb in P.callers(fn.path) if "::tests::" not in c.path]
+            if cs:
+                for c, cb in cs:
+                    cv = P.val_call(c, c.body, cb)
+                    if len(cv[4]) == 2 and cv[4][1][0] == "agg" and cv[4][1][1] == "tuple":
+                        mp = {("param", fn.path, k + 1): a for k, (_, a) in enumerate(cv[4][1][3])}
+                        emit(c, cb, -1, adt, var, subst_params(v, mp), c.body.blocks[cb]["term"]["span"], depth + 1)
+                return
         if depth < 3 and fn.kind != "closure" and ctor_helper(P, fn):
             cs = [(c, cb) for c, cb in P.callers(fn.path) if "::tests::" not in c.path and "mock_querier" not in c.path]
             for c, cb in cs:
@@ -721,6 +833,9 @@ def message_sites(P):
                 continue
             v = P.val_rvalue(fn, fn.body, (b, i), rv)
             emit(fn, b, i, rv["adt"], rv["variant"], v, st["span"], 0)
+        for (b, adt, var, v, span) in _modelled_sites(P, fn):
+            if adt_short(adt) != "ReplyOn":
+                emit(fn, b, -1, adt, var, v, span, 0)
     return out
 
 
@@ -733,6 +848,9 @@ def raw_message_sites(P, adt_variant=None):
             if adt_short(rv["adt"]) == "ReplyOn" or (adt_variant is not None and rv["adt"] + "::" + rv["variant"] != adt_variant):
                 continue
             out.append((fn, b, i, rv["adt"], rv["variant"], P.val_rvalue(fn, fn.body, (b, i), rv), st["span"]))
+        for (b, adt, var, v, span) in _modelled_sites(P, fn):
+            if adt_short(adt) != "ReplyOn" and (adt_variant is None or adt + "::" + var == adt_variant):
+                out.append((fn, b, -1, adt, var, v, span))
     return out
 
 
@@ -833,6 +951,9 @@ def calls_in(P, fn, blocks):
 def param_index_of_type(fn, ty_pat):
     """0-based index of the unique parameter whose type matches the regex."""
     hits = [i - 1 for i in range(1, fn.body.arg_count + 1) if re.search(ty_pat, fn.body.locals[i]["ty"])]
+    if not hits:
+        # the same parameter taken by reference (`&Asset`, `&[Uint128; 2]`): references are transparent in the value graph
+        hits = [i - 1 for i in range(1, fn.body.arg_count + 1) if fn.body.locals[i]["ty"].startswith("&") and re.search(ty_pat, strip_ty(fn.body.locals[i]["ty"]))]
     return hits[0] if len(hits) == 1 else None
 
 
@@ -1013,10 +1134,21 @@ def control_conditions(P, fn, b, expand_helpers=True, _depth=0):
                     rep = truth_conditions(P, fn, (r["sw"], len(body.blocks[r["sw"]]["stmts"])), t["discr"]["place"]["l"], want, _depth + 1)
                 elif cd[0] == "val" and cd[1][0] == "call" and isinstance(cd[1][3], str):
                     g = P.fn(cd[1][3]) or P.fn(generic_path(cd[1][3]))
-                    if g is not None and g.body is not None and pure_helper(P, g) and (g.sig or "").endswith("-> bool"):
+                    call_args = cd[1][4]
+                    is_closure = False
+                    if (g is None and re.search(r"ops::function::(Fn|FnMut|FnOnce)(<[^>]*>)?>::(call|call_mut|call_once)$", generic_path(cd[1][3])) and len(call_args) == 2) or \
+                            (g is not None and g.kind == "closure" and len(call_args) == 2):
+                        # a local predicate closure `let is_x = |a| ..; if is_x(&v)`: its upvars resolve at the capture site
+                        cvs = [x for x in walk(call_args[0]) if x[0] == "agg" and x[1] == "closure"]
+                        tup = call_args[1]
+                        if len(cvs) == 1 and tup[0] == "agg" and tup[1] == "tuple":
+                            g = P.fn(cvs[0][2])
+                            call_args = (call_args[0],) + tuple(x for _, x in tup[3])
+                            is_closure = g is not None and g.body is not None and not g.body.back_edges() and len(g.body.blocks) <= 24
+                    if g is not None and g.body is not None and ((is_closure and g.body.locals[0]["ty"] == "bool") or (pure_helper(P, g) and (g.sig or "").endswith("-> bool"))):
                         sub = truth_conditions(P, g, None, 0, want, _depth + 1)
                         if sub is not None:
-                            mapping = {("param", g.path, i): a for i, a in enumerate(cd[1][4])}
+                            mapping = {("param", g.path, i): a for i, a in enumerate(call_args) if not (is_closure and i == 0)}
                             rep = []
                             for c2 in sub:
                                 c3 = dict(c2)
@@ -1039,10 +1171,34 @@ def control_conditions(P, fn, b, expand_helpers=True, _depth=0):
         res = out2
     # `check(args)?` / `cond.then_some(()).ok_or(e)?`: state the condition itself instead of "the call returned Ok"
     if res and expand_helpers:
-        hg = {g.b: g for g in helper_guards(P, fn)}
+        hgl = {}
+        for g in helper_guards(P, fn):
+            hgl.setdefault(g.b, []).append(g)
+        hg = {b_: gl[0] for b_, gl in hgl.items()}
+        extra = []
         for r in res:
             g = hg.get(r["sw"])
             if g is None or r["cond"][0] != "discr" or len(r["allowed"]) != 1:
+                continue
+            if len(hgl[r["sw"]]) > 1:
+                t = body.blocks[r["sw"]]["term"]
+                tgts = {lab: tb for lab, tb in zip([variant_name(P, r["ty"], v) if r["ty"] else v for v, _ in t["arms"]], [tb for _, tb in t["arms"]])}
+                tb = tgts.get(r["allowed"][0])
+                if tb is None:
+                    tb = t["otherwise"] if t["otherwise"] not in set(tgts.values()) else None
+                gl = hgl[r["sw"]]
+                passing = [(x, x.false_t == tb and x.true_t != tb, x.true_t == tb and x.false_t != tb) for x in gl]
+                # the passing edge is the one every guard shares as its non-rejecting target
+                if all((x.false_t == tb) != (x.true_t == tb) for x in gl) and all(
+                        fail_edge_only_errors(P, fn, (r["sw"], x.true_t if x.false_t == tb else x.false_t))[0] for x in gl):
+                    first = True
+                    for x in gl:
+                        truth = (x.true_t == tb)
+                        if first:
+                            r["cond"], r["allowed"], r["ty"], r["via"] = x.cond, [truth], None, "helper"
+                            first = False
+                        else:
+                            extra.append({"sw": r["sw"], "cond": x.cond, "allowed": [truth], "ty": None, "via": "helper"})
                 continue
             t = body.blocks[r["sw"]]["term"]
             tgts = {lab: tb for lab, tb in zip([variant_name(P, r["ty"], v) if r["ty"] else v for v, _ in t["arms"]], [tb for _, tb in t["arms"]])}
@@ -1057,6 +1213,7 @@ def control_conditions(P, fn, b, expand_helpers=True, _depth=0):
                 r["cond"], r["allowed"], r["ty"], r["via"] = g.cond, [False], None, "helper"
             if r.get("via") == "helper" and getattr(g, "flag_at", None) is not None:
                 r["flag_at"] = g.flag_at
+        res = res + extra
     return res
 
 
@@ -1186,7 +1343,10 @@ def path_conjunctions(P, fn, b, limit=96):
     paths = path_conditions(P, fn, b, limit)
     if paths is None:
         return None
-    hg = {g.b: g for g in helper_guards(P, fn)}
+    hgl = {}
+    for g in helper_guards(P, fn):
+        hgl.setdefault(g.b, []).append(g)
+    hg = {b_: gl[0] for b_, gl in hgl.items() if len(gl) == 1}
     body = fn.body
     out = []
     for path in paths:
@@ -1194,6 +1354,22 @@ def path_conjunctions(P, fn, b, limit=96):
         for (sw, tb) in path:
             c = edge_condition(P, fn, sw, tb)
             if c is None:
+                continue
+            gl = hgl.get(sw, [])
+            if len(gl) > 1 and c["cond"][0] == "discr" and all((x.false_t == tb) != (x.true_t == tb) for x in gl):
+                # several conditions behind one `?`: passing = all of them pass; rejecting = the first one that fires
+                mk = lambda x, truth: {"sw": sw, "cond": x.cond, "allowed": [truth], "ty": None, "via": "helper"}
+                rejects = [x.true_t if x.false_t != tb else None for x in gl]
+                passing = all(fail_edge_only_errors(P, fn, (sw, x.true_t if x.false_t == tb else x.false_t))[0] for x in gl)
+                if passing:
+                    add = [[mk(x, x.true_t == tb) for x in gl]]
+                else:
+                    add = []
+                    for k, x in enumerate(gl):
+                        add.append([mk(y, not (y.true_t == tb)) for y in gl[:k]] + [mk(x, x.true_t == tb)])
+                rows = [r + a for r in rows for a in add]
+                if len(rows) > limit:
+                    return None
                 continue
             g = hg.get(sw)
             if g is not None and c["cond"][0] == "discr":
@@ -1613,6 +1789,8 @@ def inline_call(P, v):
     if v[0] != "call" or not isinstance(v[3], str):
         return None
     f = P.fn(v[3]) or P.fn(generic_path(v[3]))
+    if f is not None and f.kind == "closure":
+        return _inline_closure_call(P, f, v)
     if f is None or not (pure_helper(P, f) or ctor_helper(P, f)):
         return None
     vals = []
@@ -1623,6 +1801,40 @@ def inline_call(P, v):
     if not vals:
         return None
     mapping = {("param", f.path, i): a for i, a in enumerate(v[4])}
+    return phi([subst_params(x, mapping) for x in vals])
+
+
+def local_closure_helper(P, cf):
+    """cf is a closure that is *called directly* by its parent like a local function (`let f = |x| ..; f(a)`), small,
+    loop-free and without storage access: it is inlined like a private helper."""
+    if cf is None or cf.kind != "closure" or cf.body is None or cf.body.back_edges() or len(cf.body.blocks) > 60:
+        return False
+    for b, blk in enumerate(cf.body.blocks):
+        if blk["cleanup"]:
+            continue
+        t_ = blk["term"]
+        if t_["k"] == "call":
+            p, fr = callee_of(t_)
+            if p and (_STORE_OR_MSG.search(generic_path(p)) and "Response" not in p and not re.search(r"cw_storage_plus", p)) is False:
+                pass
+            if p and re.search(r"^cw_storage_plus::", generic_path(p)):
+                return False
+    return True
+
+
+def _inline_closure_call(P, cf, v):
+    if not local_closure_helper(P, cf) or len(v[4]) != 2:
+        return None
+    tup = v[4][1]
+    if not (tup[0] == "agg" and tup[1] == "tuple"):
+        return None
+    vals = [rv for (b, i, cls, rv) in exit_sites(P, cf) if cls != "err"]
+    if not vals:
+        return None
+    mapping = {("param", cf.path, k + 1): a for k, (_, a) in enumerate(tup[3])}
+    cvs = [x for x in walk(v[4][0]) if x[0] == "agg" and x[1] == "closure" and x[2] == cf.path]
+    if len(cvs) == 1:
+        mapping[("param", cf.path, 0)] = cvs[0]
     return phi([subst_params(x, mapping) for x in vals])
 
 
@@ -1680,6 +1892,8 @@ def unfold_combinators(P, v, depth=0):
             return None
         rv = ex[0][3]
         if peel_ok:
+            if not (rv[0] == "agg" and str(rv[2]).endswith("Result::Ok")):
+                rv = inline_helpers(P, rv)        # the closure forwards a private fallible helper: `|x| to_raw_pair(api, &x)`
             if not (rv[0] == "agg" and str(rv[2]).endswith("Result::Ok")):
                 return None
             rv = rv[3][0][1]
@@ -1767,13 +1981,13 @@ def single_call_site(P, fn):
     return cs[0] if len(cs) == 1 else None
 
 
-def lift_value(P, fn, v, max_depth=3):
+def lift_value(P, fn, v, max_depth=3, stop=None):
     """Rewrite a value of helper `fn` into the context of its (unique) caller, repeatedly: parameters are replaced by the
-    call's argument values. Returns (context Fn, value)."""
+    call's argument values. Returns (context Fn, value).  `stop(fn)` ends the lifting at a function the caller knows."""
     d = 0
     while d < max_depth:
         d += 1
-        if fn.kind == "closure":
+        if fn.kind == "closure" or (stop is not None and stop(fn)):
             break
         if not any(x[0] == "param" and x[1] == fn.path for x in walk(v)):
             break
@@ -1785,3 +1999,47 @@ def lift_value(P, fn, v, max_depth=3):
         v = subst_params(v, {("param", fn.path, i): a for i, a in enumerate(cv[4])})
         fn = c
     return fn, v
+
+
+def resolve_conversion(P, fr):
+    """A `From::from` / `Into::into` call (fnref of the call terminator) resolved to the workspace impl it lands in:
+    `x.into()` with (Src, Dst) = (Uint256, u128) is `<u128 as From<Uint256>>::from`.  None when no workspace impl matches."""
+    if not fr or fr.get("path") not in ("std::convert::Into::into", "core::convert::Into::into", "std::convert::From::from", "core::convert::From::from"):
+        return None
+    a = fr.get("args") or []
+    if len(a) != 2:
+        return None
+    src, dst = (a[0], a[1]) if fr["path"].endswith("into") else (a[1], a[0])
+    idx = getattr(P, "_conv_index", None)
+    if idx is None:
+        idx = {}
+        for g in P.fns.values():
+            if g.body is not None and g.kind == "assoc_fn" and g.name == "from":
+                m = re.search(r"From<(.+?)>+$", g.j.get("impl_trait_full") or "")
+                if m and g.impl_self:
+                    idx[(m.group(1), g.impl_self)] = g
+        P._conv_index = idx
+    return idx.get((src, dst))
+
+
+def option_choice_local(P, R, fn, opt_root, some_roots, none_roots, cond_strings_fn):
+    """A local of fn assigned `payload(opt)` (roots in some_roots) exactly under discr(opt) == Some and the fallback (roots ==
+    none_roots) exactly under discr(opt) == None — the `match opt { Some(x) => f(x), None => alt }` spelling of
+    `opt.map(f).unwrap_or(alt)`.  Returns the local or None."""
+    body = fn.body
+    for local, ds in body.defs().items():
+        full = [d for d in ds if d[2] in ("full", "call")]
+        if len(full) != 2 or len(full) != len([d for d in ds if d[2] != "mutborrow"]):
+            continue
+        got = {}
+        for d in full:
+            v = P.val_def(fn, body, d, local)
+            rs = set(R.roots(v))
+            cs = cond_strings_fn(control_conditions(P, fn, d[0]))
+            if rs and rs <= set(some_roots) and ("discr(%s) in ['Some']" % opt_root) in cs:
+                got["some"] = d
+            elif rs == set(none_roots) and ("discr(%s) in ['None']" % opt_root) in cs:
+                got["none"] = d
+        if len(got) == 2:
+            return local
+    return None
